@@ -33,7 +33,9 @@ Record obs := {
   o_mjson : list (Z * string);                  (* x, MarshalJSON *)
   o_mtext : list (Z * string);
   o_sqlval : list (Z * string);                 (* x, Value().(string) *)
-  o_ujson : list (string * Z * (Z * Z));        (* data, target before, (error code, target after) *)
+  o_ujson : list (string * option string * Z * (Z * Z));
+                                                (* data, what json.Unmarshal(data, &string) gave for it (None = error),
+                                                   target before, (error code, target after) *)
   o_utext : list (string * Z * (Z * Z));
   o_scan : list (sqlv * Z * (Z * Z));
   o_rt : list (Z * Z * Z * (Z * Z));            (* codec (0 json,1 text,2 sql,3 encoding/json), c, target before, (err, after) *)
@@ -44,7 +46,14 @@ Record obs := {
   (* -bit, exhaustive over x in [0, o_bitn) *)
   o_bitn : Z;
   o_bitstr : list string;                       (* String(x) for x = 0 .. o_bitn-1 *)
-  o_bitops : list (Z * (Z * (list Z * list Z))) (* flag, (mask of Has(x,flag), Add(x,flag)s, Remove(x,flag)s) *)
+  o_bitops : list (Z * (Z * (Z * (Z * (list Z * list Z)))));
+                                                (* flag f, (mask of x.Has(f), (mask of x.Add(f).Has(f), (mask of
+                                                   x.Remove(f).Has(f), (x.Add(f)s, x.Remove(f)s)))) *)
+  o_bitpairs : list (Z * Z * (bool * (Z * (Z * (bool * bool)))));
+                                                (* x, f over the whole kind (also negative, sign bit):
+                                                   Has, Add, Remove, Add.Has, Remove.Has *)
+  o_ctypes : list (string * (string * Z))       (* EVERY named constant of the package: name, (name of its
+                                                   package-level named type or "", value) *)
 }.
 
 Record case := { c_pkg : pkg; c_type : string; c_flags : flags; c_obs : obs }.
@@ -77,7 +86,7 @@ Definition sqlv_eqb (a b : sqlv) : bool :=
   match a, b with
   | SNil, SNil => true
   | SBytes x, SBytes y | SStr x, SStr y => String.eqb x y
-  | SInt x, SInt y | SFloat x, SFloat y => Z.eqb x y
+  | SInt x, SInt y | SFloat x, SFloat y | STime x, STime y => Z.eqb x y
   | SBool x, SBool y => Bool.eqb x y
   | _, _ => false
   end.
@@ -171,6 +180,11 @@ Definition mask_of (f : Z -> bool) (xs : list Z) : Z :=
 
 Definition u3 {A} (f : string -> Z -> A) (i : string * Z * (Z * Z)) : A := f (fst (fst i)) (snd (fst i)).
 
+(* what go/types says about every constant: its package-level named type (or "") and its value *)
+Definition all_ctypes (p : pkg) : list (string * (string * Z)) :=
+  map (fun e => (ce_name e, (match ce_type e with CNamed t => t | _ => "" end, ce_val e)))
+      (named_entries (const_env p)).
+
 Definition model_obs (c : case) (o : obs) : obs :=
   let p := c_pkg c in
   let ce := const_env p in
@@ -178,7 +192,7 @@ Definition model_obs (c : case) (o : obs) : obs :=
   | None => {| o_built := true; o_consts := []; o_values := []; o_strings := []; o_vmap := []; o_smap := [];
                o_points := []; o_mjson := []; o_mtext := []; o_sqlval := []; o_ujson := []; o_utext := [];
                o_scan := []; o_rt := []; o_parse := []; o_try := []; o_isenum := []; o_gorm := [];
-               o_bitn := 0; o_bitstr := []; o_bitops := [] |}
+               o_bitn := 0; o_bitstr := []; o_bitops := []; o_bitpairs := []; o_ctypes := all_ctypes p |}
   | Some g =>
       let fl := c_flags c in
       let res (r : option errk * Z) := (err_code (fst r), snd r) in
@@ -193,7 +207,9 @@ Definition model_obs (c : case) (o : obs) : obs :=
          o_mjson := map (fun xo => (fst xo, marshal_json ce g jenc (fst xo))) (o_mjson o);
          o_mtext := map (fun xo => (fst xo, marshal_text ce g (fst xo))) (o_mtext o);
          o_sqlval := map (fun xo => (fst xo, str_of ce g (fst xo))) (o_sqlval o);
-         o_ujson := map (fun i => (fst i, res (u3 (unmarshal_json ce g jdec) i))) (o_ujson o);
+         (* the JSON decoding of each input is the one encoding/json itself produced *)
+         o_ujson := map (fun i => let '(data, dec, t0) := fst i in
+                                  (fst i, res (unmarshal_json ce g (fun _ => dec) data t0))) (o_ujson o);
          o_utext := map (fun i => (fst i, res (u3 (unmarshal_text ce g) i))) (o_utext o);
          o_scan := map (fun i => (fst i, res (scan ce g (fst (fst i)) (snd (fst i))))) (o_scan o);
          o_rt := map (fun i =>
@@ -201,27 +217,37 @@ Definition model_obs (c : case) (o : obs) : obs :=
                         (fst i,
                          if codec =? 0 then res (unmarshal_json ce g jdec (marshal_json ce g jenc x) t0)
                          else if codec =? 1 then res (unmarshal_text ce g (marshal_text ce g x) t0)
-                         else if codec =? 2 then
-                           res (scan ce g (match sql_value ce g x with SStr s => SBytes s | v => v end) t0)
+                         else if codec =? 2 then res (scan ce g (sql_value ce g x) t0)
                          else res (unmarshal_json ce g jdec (marshal_json ce g jenc x) t0))) (o_rt o);
          o_parse := map (fun i => (fst i, let r := parse_enum ce g (fst i) in (fst r, err_code (snd r)))) (o_parse o);
          o_try := map (fun i => (fst i, try_parse_enum ce g (fst (fst i)) (snd (fst i)))) (o_try o);
-         o_isenum := map (fun i => (fst i, is_enum ce g (wrap (fst (fst i)) (snd (fst i))))) (o_isenum o);
+         o_isenum := map (fun i => (fst i, is_enum ce g (snd (fst i)))) (o_isenum o);
          o_gorm := if f_gorm fl then [gorm_data_type; gorm_db_data_type g] else [];
          o_bitn := o_bitn o;
          o_bitstr := if f_bit fl then map (str_of ce g) xs else [];
          o_bitops := if f_bit fl
                      then map (fun fo => let f := fst fo in
                                          (f, (mask_of (fun x => has x f) xs,
-                                              (map (fun x => add x f) xs, map (fun x => remove x f) xs))))
+                                              (mask_of (fun x => has (add x f) f) xs,
+                                               (mask_of (fun x => has (remove x f) f) xs,
+                                                (map (fun x => add x f) xs, map (fun x => remove x f) xs))))))
                               (o_bitops o)
-                     else [] |}
+                     else [];
+         o_bitpairs := if f_bit fl
+                       then map (fun i => let '(x, f) := fst i in
+                                          (fst i, (has x f, (add x f, (remove x f,
+                                                   (has (add x f) f, has (remove x f) f))))))
+                                (o_bitpairs o)
+                       else [];
+         o_ctypes := all_ctypes p |}
   end.
 
 (* component-wise comparison; returns the 1-based index of the first
    differing component, 0 if all agree *)
 Definition zz := pair_eqb Z.eqb Z.eqb.
 Definition szzz := pair_eqb (pair_eqb String.eqb Z.eqb) zz.
+Definition opt_s_eqb (a b : option string) : bool :=
+  match a, b with Some x, Some y => String.eqb x y | None, None => true | _, _ => false end.
 
 Definition components (a b : obs) : list bool :=
   [ Bool.eqb (o_built a) (o_built b);
@@ -234,7 +260,7 @@ Definition components (a b : obs) : list bool :=
     list_eqb (pair_eqb Z.eqb String.eqb) (o_mjson a) (o_mjson b);
     list_eqb (pair_eqb Z.eqb String.eqb) (o_mtext a) (o_mtext b);
     list_eqb (pair_eqb Z.eqb String.eqb) (o_sqlval a) (o_sqlval b);
-    list_eqb szzz (o_ujson a) (o_ujson b);
+    list_eqb (pair_eqb (pair_eqb (pair_eqb String.eqb opt_s_eqb) Z.eqb) zz) (o_ujson a) (o_ujson b);
     list_eqb szzz (o_utext a) (o_utext b);
     list_eqb (pair_eqb (pair_eqb sqlv_eqb Z.eqb) zz) (o_scan a) (o_scan b);
     list_eqb (pair_eqb (pair_eqb zz Z.eqb) zz) (o_rt a) (o_rt b);
@@ -244,15 +270,19 @@ Definition components (a b : obs) : list bool :=
     list_eqb String.eqb (o_gorm a) (o_gorm b);
     Z.eqb (o_bitn a) (o_bitn b);
     list_eqb String.eqb (o_bitstr a) (o_bitstr b);
-    list_eqb (pair_eqb Z.eqb (pair_eqb Z.eqb (pair_eqb (list_eqb Z.eqb) (list_eqb Z.eqb)))) (o_bitops a) (o_bitops b) ].
+    list_eqb (pair_eqb Z.eqb (pair_eqb Z.eqb (pair_eqb Z.eqb (pair_eqb Z.eqb
+              (pair_eqb (list_eqb Z.eqb) (list_eqb Z.eqb)))))) (o_bitops a) (o_bitops b);
+    list_eqb (pair_eqb zz (pair_eqb Bool.eqb (pair_eqb Z.eqb (pair_eqb Z.eqb (pair_eqb Bool.eqb Bool.eqb)))))
+             (o_bitpairs a) (o_bitpairs b);
+    list_eqb (pair_eqb String.eqb (pair_eqb String.eqb Z.eqb)) (o_ctypes a) (o_ctypes b) ].
 
 Fixpoint first_false (i : Z) (l : list bool) : Z :=
   match l with [] => 0 | b :: l' => if b then first_false (i + 1) l' else i end.
 
 (* which components each property looks at (1-based indices into [components]) *)
-Definition comps04 : list Z := [1; 2; 3; 4; 5; 6; 7].
-Definition comps12 : list Z := [1; 2; 3; 5; 8; 9; 10; 11; 12; 13; 14; 15; 16; 17; 18].
-Definition comps14 : list Z := [1; 2; 3; 6; 7; 19; 20; 21].
+Definition comps04 : list Z := [1; 2; 3; 4; 5; 6; 7; 23].
+Definition comps12 : list Z := [1; 2; 3; 5; 8; 9; 10; 11; 12; 13; 14; 15; 16; 17; 18; 23].
+Definition comps14 : list Z := [1; 2; 3; 6; 7; 19; 20; 21; 22; 23].
 
 Fixpoint first_false_in (sel : list Z) (i : Z) (l : list bool) : Z :=
   match l with
@@ -336,11 +366,11 @@ Definition Pb12 (c : case) (o : obs) : bool :=
   && forallb (fun xo => String.eqb (snd xo) (spec_string c D (fst xo))) (o_mtext o)
   && forallb (fun xo => String.eqb (snd xo) (spec_string c D (fst xo))) (o_sqlval o)
   (* unmarshal: only declared names; everything else is an error and leaves the target alone *)
-  && forallb (fun i => let '(data, t0, r) := i in
-                       match jdec data with Some s => decode s t0 r | None => reject t0 r end) (o_ujson o)
+  && forallb (fun i => let '(data, dec, t0, r) := i in
+                       match dec with Some s => decode s t0 r | None => reject t0 r end) (o_ujson o)
   && forallb (fun i => let '(s, t0, r) := i in decode s t0 r) (o_utext o)
   && forallb (fun i => let '(v, t0, r) := i in
-                       match v with SBytes s => decode s t0 r | _ => reject t0 r end) (o_scan o)
+                       match v with SBytes s | SStr s => decode s t0 r | _ => reject t0 r end) (o_scan o)
   (* decode(encode(c)) = c for declared c *)
   && forallb (fun i => let '(_, x, t0, r) := i in
                        if mem_z x (map snd D) then (fst r =? 0) && (snd r =? x) else true) (o_rt o)
@@ -355,35 +385,49 @@ Definition Pb12 (c : case) (o : obs) : bool :=
                        | Some v' => ok && (t1 =? v')
                        | None => negb ok && (t1 =? t0)
                        end) (o_try o)
-  && match kind_of_type (c_pkg c) (c_type c) with
-     | Some k => forallb (fun i => let '(tv, v, b) := i in
-                                   Bool.eqb b (mem_z (wrap k (wrap tv v)) (o_values o))) (o_isenum o)
-     | None => false
-     end.
+  (* IsEnum agrees with Values() for every integer, of every argument type *)
+  && forallb (fun i => let '(tv, v, b) := i in Bool.eqb b (mem_z v (o_values o))) (o_isenum o).
+
+(* String(x) against the specification.  "declared -> name" and "negative -> decimal" do not depend
+   on the bit-flag grammar and are always checked; the union / undeclared-bit cases are stated for the
+   grammar (C14 bits_declared: non-negative values, every bit of every declared value is a declared
+   flag) and are checked inside it only (outside it the model alone is compared) *)
+Definition string_ok (c : case) (D : list (string * Z)) (in_grammar : bool) (x : Z) (s : string) : bool :=
+  match name_of_val D x with
+  | Some n => String.eqb s (trim c n)
+  | None => if x <? 0 then String.eqb s (dec x)
+            else if in_grammar then String.eqb s (spec_string c D x) else true
+  end.
 
 Definition Pb14 (c : case) (o : obs) : bool :=
   let D := declared_obs c o in
   let xs := range_from 0 (Z.to_nat (o_bitn o)) in
-  (* the String() specification is stated for the bit-flag grammar (C14 bits_declared: non-negative
-     values, every bit of every declared value is a declared flag); outside it only the model is compared *)
   let in_grammar := bits_declared_b (map snd D) || negb (f_bit (c_flags c)) in
   o_built o
-  && (negb in_grammar ||
-      list_eqb String.eqb (o_bitstr o) (if f_bit (c_flags c) then map (spec_bit_string c D) xs else []))
-  && (negb in_grammar ||
-      forallb (fun xo => let '(x, (s, _)) := xo in String.eqb s (spec_string c D x)) (o_points o))
+  && (if f_bit (c_flags c)
+      then Nat.eqb (List.length (o_bitstr o)) (List.length xs)
+           && forallb (fun xs => string_ok c D in_grammar (fst xs) (snd xs)) (combine xs (o_bitstr o))
+      else match o_bitstr o with [] => true | _ => false end)
+  && forallb (fun xo => let '(x, (s, _)) := xo in string_ok c D in_grammar x s) (o_points o)
   && forallb (fun fo =>
-       let '(f, (hm, (adds, rems))) := fo in
-       let hasb (y : Z) := Z.testbit hm y in
+       let '(f, (hm, (hma, (hmr, (adds, rems))))) := fo in
        Nat.eqb (List.length adds) (List.length xs) && Nat.eqb (List.length rems) (List.length xs)
-       && forallb (fun xa => let '(x, a) := xa in                     (* Add *)
-                    (Z.land a f =? f) && (Z.ldiff a f =? Z.ldiff x f)
-                    && (if (0 <=? a) && (a <? o_bitn o) then hasb a else true)) (combine xs adds)
-       && forallb (fun xr => let '(x, r) := xr in                     (* Remove *)
-                    (Z.land r f =? 0) && (Z.ldiff r f =? Z.ldiff x f)
-                    && (if (0 <=? r) && (r <? o_bitn o) && negb (f =? 0) then negb (hasb r) else true)) (combine xs rems)
-       && forallb (fun x => Bool.eqb (hasb x) (Z.land x f =? f)) xs)  (* Has *)
-     (o_bitops o).
+       && forallb (fun xa => let '(x, a) := xa in                     (* Add: f set, outside f unchanged *)
+                    (Z.land a f =? f) && (Z.ldiff a f =? Z.ldiff x f)) (combine xs adds)
+       && forallb (fun xr => let '(x, r) := xr in                     (* Remove: f cleared, outside f unchanged *)
+                    (Z.land r f =? 0) && (Z.ldiff r f =? Z.ldiff x f)) (combine xs rems)
+       && forallb (fun x => Bool.eqb (Z.testbit hm x) (Z.land x f =? f)    (* Has is bit inclusion *)
+                            && Z.testbit hma x                             (* x.Add(f).Has(f), executed *)
+                            && (if f =? 0 then true else negb (Z.testbit hmr x)))   (* not x.Remove(f).Has(f) *)
+                  xs)
+     (o_bitops o)
+  && forallb (fun i =>                                  (* the same on operands of the whole kind, also negative *)
+       let '(x, f, (h, (a, (r, (ha, hr))))) := i in
+       Bool.eqb h (Z.land x f =? f)
+       && (Z.land a f =? f) && (Z.ldiff a f =? Z.ldiff x f)
+       && (Z.land r f =? 0) && (Z.ldiff r f =? Z.ldiff x f)
+       && ha && (if f =? 0 then true else negb hr))
+     (o_bitpairs o).
 
 (* ------------------------------------------------------------------ verdicts *)
 
@@ -409,6 +453,10 @@ Fixpoint mismatches_from (v : case -> N) (i : N) (cs : list case) : list (N * N)
       if N.eqb r 0 then mismatches_from v (N.succ i) cs'
       else (i, r) :: mismatches_from v (N.succ i) cs'
   end.
+
+(* how many cases lie inside the theorems' guard (reported in the evidence; the generator is
+   expected to keep every compared target inside) *)
+Definition guard_count (cs : list case) : N := N.of_nat (List.length (filter in_guard cs)).
 
 Definition mismatches04 := mismatches_from (verdict Pb04 comps04) 0%N.
 Definition mismatches12 := mismatches_from (verdict Pb12 comps12) 0%N.
